@@ -89,6 +89,15 @@ struct OptRunner {
 		}
 		return r + "]";
 	}
+	// beyond the listed property (pseudo-property EXTRA): the comparison operators of optional against values, beside std
+	std::string cmp(bool ref) requires std::is_same_v<T, long long> {
+		std::vector<long long> v;
+		for(int d = 1; d <= 2; d++) for(long long x : {0ll, 1ll, 2ll}) {
+			if(!ref) { auto &h = f.at(d); v.push_back(h == x); v.push_back(x == h); v.push_back(h != x); v.push_back(x != h); v.push_back(h < x); v.push_back(x < h); }
+			else { auto &h = s.at(d); v.push_back(h == x); v.push_back(x == h); v.push_back(h != x); v.push_back(x != h); v.push_back(h < x); v.push_back(x < h); }
+		}
+		return jarr(v);
+	}
 	void end() { f.kill(); s.kill(); }
 };
 
@@ -243,6 +252,7 @@ static void run_one(R &r, const std::string &kind, const std::string &elem, cons
 			ev.str("name", o.name).i("d", o.d).i("x", o.x).i("i", o.i).i("skipped", did ? 0 : 1);
 			lo = ledger_on(); ledger_on() = false;
 			ev.raw("obs", r.obs(false)).raw("ref", r.obs(true));
+			if constexpr (requires { r.cmp(false); }) ev.raw("cmp", r.cmp(false)).raw("refcmp", r.cmp(true));
 			ledger_on() = lo;
 			ev.emit();
 		}
